@@ -183,6 +183,7 @@ def run(db, rep, feat, tier):
     r7(db, rep, hbp, pdisp, pterm)
     r10(db, rep, tier)
     r11(db, rep)
+    r12(db, rep)
     c05.r4(db, rep, ("mips", "ppc"), "R8")
 
 
@@ -284,6 +285,109 @@ def r11(db, rep):
     r.decide(bool(tests) and first not in reach, "mips|window_end|delay_state_tested", db.where(body, pushes[0][1].get("l")),
              "the window-end fall-through successor is pushed without looking at the delay-slot state: a branch that is the last "
              "instruction of the given bytes gets its own successors plus an unconditional one, and its delay slot is dropped")
+
+
+def r12(db, rep):
+    """lwl / lwr / swl / swr for each of the four alignments: the effective address is pinned (base := 0x100 + b, displacement
+    := 0), the builder's own address and mask arithmetic folds to constants, and the bytes that reach the register / memory are
+    compared with the MIPS32 definition (big-endian byte numbering), byte by byte, in the bit-provenance domain."""
+    import bitprov
+    r = rep.rule("R12", "K9", "MIPS unaligned accesses, byte for byte and for each alignment EA % 4: LWL fills the register from its most "
+                 "significant byte with mem[EA .. word end], LWR fills it from its least significant byte with mem[word start .. EA], "
+                 "SWL/SWR store the corresponding register bytes and leave the other memory bytes unchanged")
+    sh = ilshape.Shape(db)
+    for nm in ("lwl", "lwr", "swl", "swr"):
+        f = "translator::mips::semantics::" + nm
+        rep.anchor(f in db.hir, f)
+        res = sh.run(f)
+        loads = [o for o in res.ops if o["kind"] == "Load"]
+        outs = [o for o in res.ops if o["kind"] == ("Assign" if nm[0] == "l" else "Store")]
+        if len(loads) != 1 or len(outs) != 1:
+            r.open("mips|%s" % nm, db.where(db.hir[f]), "unexpected operation list")
+            continue
+        base_ids = set()
+        reg_reads(loads[0]["addr"], base_ids)
+        rt_ids = set()
+        reg_reads(outs[0]["src"], rt_ids)
+        rt_ids -= base_ids
+        consts = {x[2][2] for o in res.ops for k in ("addr", "src") if o.get(k) is not None for x in subexprs(o[k])
+                  if x[2][0] == "const" and x[2][1] is None and len(x[2]) > 2}
+        if len(base_ids) != 1 or len(rt_ids) > 1:
+            r.open("mips|%s" % nm, db.where(db.hir[f]), "base / rt registers not identified")
+            continue
+        base = "reg:" + next(iter(base_ids))
+        rt = "reg:" + (next(iter(rt_ids)) if rt_ids else "?")
+        bad = None
+        unknown = False
+        for b in range(4):
+            ea = 0x100 + b
+            al = ea & ~3
+            bitprov.ENV = {base: ea}
+            for c in consts:
+                bitprov.ENV["const#%s" % c] = 0
+            la = bitprov.cfold(loads[0]["addr"])
+            if la is None:
+                bad = (b, "the load address does not fold to a constant")
+                break
+            # big-endian word at la: byte j (address la + j) is bits 8*(3-j) .. 8*(3-j)+7
+            tmp = [None] * 32
+            for j in range(4):
+                for t in range(8):
+                    tmp[8 * (3 - j) + t] = ("mem", (la + j) * 8 + t)
+            bitprov.ENV["scalar:temp"] = tmp
+            got = bitprov.bits(outs[0]["src"])
+            regbyte = lambda i, t: (rt, 8 * (3 - i) + t)          # register byte i, counted from the most significant
+            if nm[0] == "l":
+                want = [None] * 32
+                for i in range(4):
+                    for t in range(8):
+                        if nm == "lwl":
+                            src = ("mem", (ea + i) * 8 + t) if i <= 3 - b else regbyte(i, t)
+                        else:
+                            k = 3 - i
+                            src = ("mem", (ea - k) * 8 + t) if k <= b else regbyte(i, t)
+                        want[8 * (3 - i) + t] = src
+                ok = got == want
+            else:
+                sa = bitprov.cfold(outs[0]["addr"])
+                if sa is None:
+                    bad = (b, "the store address does not fold to a constant")
+                    break
+                ok = got is not None
+                newmem = {}
+                if ok:
+                    for j in range(4):
+                        for t in range(8):
+                            newmem[(sa + j) * 8 + t] = got[8 * (3 - j) + t]
+                    for a in range(al - 4, al + 8):
+                        for t in range(8):
+                            if nm == "swl":
+                                i = a - ea
+                                exp = regbyte(i, t) if 0 <= i <= 3 - b else ("mem", a * 8 + t)
+                            else:
+                                k = ea - a
+                                exp = regbyte(3 - k, t) if 0 <= k <= b else ("mem", a * 8 + t)
+                            have = newmem.get(a * 8 + t, ("mem", a * 8 + t))
+                            if have != exp:
+                                ok = False
+            if got is None or any(x is None for x in got):
+                unknown = True
+            elif not ok and bad is None:
+                bad = (b, "with EA %% 4 = %d the %s is %s" % (b, "register" if nm[0] == "l" else "stored word", bitprov.show(got)))
+        bitprov.ENV = {}
+        if bad is None and unknown:
+            r.open("mips|%s" % nm, db.where(db.hir[f]), "the term built for some alignment is not understood by the bit-provenance evaluator")
+        else:
+            r.decide(bad is None, "mips|%s" % nm, db.where(db.hir[f]), "%s: %s" % (nm, bad[1] if bad else ""))
+
+
+def subexprs(e):
+    if not ilshape.is_il(e):
+        return
+    yield e
+    if e[2][0] == "op":
+        for a in e[2][2]:
+            yield from subexprs(a)
 
 
 def r1(db, rep, hb, disp, pre, cls):
